@@ -118,7 +118,9 @@ Pieces == {"a", "space", "tab", "lf", "c2", "c3", "c4",
            "cp-0", "cp-41", "cp-e9", "cp-20ac", "cp-1f600", "cp-1F600", "cp-10ffff", "cp-000041", "cp-a", "cp-7f", "cp-fffd",
            "cont-lf", "cont-crlf", "cont-lf-indent", "cont-lf-tab",
            "verb-simple", "verb-specials", "verb-empty", "verb-tab", "verb-lf", "verb-crlf", "verb-partial", "verb-long-sentinel",
-           "verb-unicode-sentinel"}
+           "verb-unicode-sentinel",
+           (* nothing, or text that begins like the sentinel, before a sentinel of several characters *)
+           "verb-empty-long", "verb-prefix-start", "verb-prefix-start3", "verb-prefix-twice"}
 BadPieces == {"cp-110000", "cp-d800", "cp-dfff", "cp-ffffffff1", "esc-x", "esc-0", "cp-empty"}
 SeqsUpTo(S, n) == UNION {[1..k -> S] : k \in 0..n}
 StringCases ==
